@@ -9,10 +9,13 @@ ops (all run bits.bips.bip143.witness_message in the worker):
   wm_tx_named  as wm_tx_spec but the sighash type is given by NAME ("SINGLE|ANYONECANPAY") and resolved in the
                worker through bits.script.constants.SIGHASH_*; model/spec side uses the standard's number
   wm_raw       arbitrary byte strings as txins/txouts/scriptcode, optional version/locktime/flag
+  wm_edit      a SEQUENCE of calls on the same txins/txouts list objects, edited in place between the calls
+               (harness/c11_seq.py); model: c11_wm_tx_seq over the content at the moment of each call
   outpoint / txin / txout / compact_size_uint / witness_digest   the helpers on their own
 """
 import hashlib
 from common import case, case_to_json, coq_bytes, coq_result, short
+import c11_seq
 
 ID = "C11"
 MAKE_TARGETS = ["Props/C11.v", "GenProps/Bip143Gen.v"]
@@ -37,12 +40,28 @@ _LAST = {"cases": []}
 # ------------------------------------------------------------------------------------------
 # implementation side (runs in the worker against /repo/src)
 # ------------------------------------------------------------------------------------------
+_OWNED = []
+
+
+def _owned(slot, src, elems):
+    """the serialised list that belongs to the caller's structured list object `src`: while the caller keeps passing the SAME
+    list object (common.py's @reuselist variant refills one list per argument position in place) the library is handed the
+    SAME serialised list object, refilled in place - as a signer that keeps one txins/txouts list per transaction does"""
+    lst = next((l for (k, l) in _OWNED if k is src), None)
+    if lst is None:
+        lst = []
+        _OWNED.append((src, lst))         # strong reference: ids are not recycled while an entry lives
+        del _OWNED[:-8]
+    lst[:] = elems
+    return lst
+
+
 def _wm_tx(ver, ins, outs, lt, idx, amount, script, flag, as_float=False):
     import bits
     import bits.tx
     from bits.bips import bip143
-    txins = [bits.tx.txin(bits.tx.outpoint(t, v), s, sequence=q.to_bytes(4, "little")) for (t, v, s, q) in ins]
-    txouts = [bits.tx.txout(a, s) for (a, s) in outs]
+    txins = _owned("ins", ins, [bits.tx.txin(bits.tx.outpoint(t, v), s, sequence=q.to_bytes(4, "little")) for (t, v, s, q) in ins])
+    txouts = _owned("outs", outs, [bits.tx.txout(a, s) for (a, s) in outs])
     sc = bits.compact_size_uint(len(script)) + script
     return bip143.witness_message(txins, idx, float(amount) if as_float else amount, sc, txouts,
                                   version=ver, locktime=lt, sighash_flag=flag)
@@ -69,7 +88,7 @@ def _wm_raw(txins, idx, value, sc, txouts, ver, lt, flag):
         kw["locktime"] = lt
     if flag is not None:
         kw["sighash_flag"] = flag
-    return bip143.witness_message(list(txins), idx, value, sc, list(txouts), **kw)
+    return bip143.witness_message(txins, idx, value, sc, txouts, **kw)     # the caller's list objects, untouched
 
 
 def _tx():
@@ -93,6 +112,7 @@ IMPL = {
     "wm_tx_float": lambda *a: _wm_tx(*a, as_float=True),
     "wm_tx_named": _wm_named,
     "wm_raw": _wm_raw,
+    "wm_edit": c11_seq.impl_wm_edit,
     "outpoint": lambda t, i: _tx().outpoint(t, i),
     "txin": lambda o, s, q: _tx().txin(o, s, sequence=q),
     "txout": lambda v, s: _tx().txout(v, s),
@@ -110,6 +130,8 @@ MODEL_OPS = {
 def model_call(c):
     if c["op"] == "wm_tx_named":
         return "c11_spec_preimage", c["args"][:7] + [NAMED[c["args"][7]]]
+    if c["op"] == "wm_edit":
+        return "c11_wm_tx_seq", c11_seq.model_args(c["args"])
     return MODEL_OPS[c["op"]], c["args"]
 
 
@@ -164,6 +186,8 @@ def in_domain(args):
 def prop_oracle(c):
     """literal statement of C11 on the implementation: for a well-formed transaction, an existing input index and
     one of the six standard types the message is byte-for-byte the BIP143 preimage (and witness_digest its HASH256)"""
+    if c["op"] == "wm_edit":
+        return c11_seq.oracle(c["args"], in_domain, bip143_preimage)
     if c["op"] not in ("wm_tx", "wm_tx_spec", "wm_tx_float", "wm_tx_named"):
         return None
     args = [list(a) if isinstance(a, tuple) else a for a in c["args"]]
@@ -335,6 +359,8 @@ def gen_cases(rng, tier):
                                       ("outpoints-changed", (ins3, outs)), ("outputs-changed", (ins, outs2)),
                                       ("seq-changed-again", (ins2, outs2))):
                 _both(out, "related-calls/%s" % variant, [ver, list(ii), list(oo), lt, idx, amt, sc, flag])
+    # ---- call sequences on the SAME txins/txouts list objects edited in place between the calls ----
+    out += c11_seq.gen(rng, tier, rand_tx, _amount, _script, case)
     # ---- SINGLE boundary: i = n_out - 1, n_out, n_out + 1 ----
     for n_out in range(1, 8):
         for idx in (n_out - 1, n_out, n_out + 1):
@@ -523,6 +549,9 @@ def extra_checks(ctx):
 # shrinking
 # ------------------------------------------------------------------------------------------
 def shrink(c):
+    if c["op"] == "wm_edit":
+        yield from c11_seq.shrink(c)
+        return
     if c["op"] not in ("wm_tx", "wm_tx_spec", "wm_tx_float", "wm_tx_named"):
         return
     ver, ins, outs, lt, idx, amount, script, flag = c["args"]
